@@ -1,10 +1,10 @@
 #!/bin/bash
-# usage: soundbattery.sh [dir with rev_*.diff]   (default .scratch/soundness)
+# usage: soundbattery.sh [dir with rev_*.diff] [parallel jobs]   (default soundness/, 3)
 # Runs, for every behaviour-preserving reviewer diff, the quick check of the property it targets on a private patched copy.
 # Prints one line per diff: SILENT | ALARM (with the signatures). Nothing in /repo is touched.
-dir=${1:-/verif/.scratch/soundness}
-for p in "$dir"/rev_*.diff; do
-  b=$(basename "$p" .diff)
+dir=${1:-/verif/soundness}; jobs=${2:-3}
+one() {
+  p="$1"; b=$(basename "$p" .diff)
   id=$(echo "$b" | sed -E 's/^rev_g[0-9]_//' | grep -oiE '^c[0-9]{2}' | tr a-z A-Z)
   if [ -z "$id" ]; then   # group 1 names: A*=C01 B*=C02 C*=C03 D*=C05
     case "$b" in rev_g1_A*) id=C01;; rev_g1_B*) id=C02;; rev_g1_C*) id=C03;; rev_g1_D*) id=C05;; esac
@@ -13,8 +13,10 @@ for p in "$dir"/rev_*.diff; do
   if echo "$out" | grep -qE "^VIOLATION|HARNESS"; then
     echo "ALARM  $id $b :: $(echo "$out" | grep -E '^--- |HARNESS' | cut -c1-120 | tr '\n' '|')"
   elif echo "$out" | grep -q "^EXIT rc=0"; then
-    echo "SILENT $id $b $(echo "$out" | grep -c NOTE) notes"
+    echo "SILENT $id $b notes=$(echo "$out" | grep -c NOTE)"
   else
     echo "???    $id $b :: $(echo "$out" | tail -2 | cut -c1-200 | tr '\n' '|')"
   fi
-done
+}
+export -f one
+ls "$dir"/rev_*.diff | xargs -P "$jobs" -I{} bash -c 'one {}'
